@@ -1161,7 +1161,63 @@ class Interp:
         shape = ins[0].shape
         sim = dn.start_index_map
         nidx = len(sim)
-        return self._with_indices(eqn, ins, [1], lambda where: [shape[sim[j % nidx]] for _, j in where])
+        idx = ins[1]
+        nsym = sum(1 for e in idx.reshape(-1) if is_sym(lower(e)))
+        if nsym <= 2:
+            return self._with_indices(eqn, ins, [1], lambda where: [shape[sim[j % nidx]] for _, j in where])
+        return self._gather_rowwise(eqn, ins)
+
+    def _gather_rowwise(self, eqn, ins):
+        """Each output element depends on one index row: evaluate the real gather with every row set to the
+        same representative index vector, then select per output element on its own row's symbolic indices."""
+        dn = eqn.params["dimension_numbers"]
+        operand, idx = ins
+        shape = operand.shape
+        sim = dn.start_index_map
+        d = idx.shape[-1]
+        assert d == len(sim)
+        kk = self._k(eqn)
+        oshape = tuple(eqn.outvars[0].aval.shape)
+        offset_dims = set(dn.offset_dims)
+        batch_out_dims = [i for i in range(len(oshape)) if i not in offset_dims]
+        rows_shape = idx.shape[:-1]
+        assert tuple(oshape[i] for i in batch_out_dims) == tuple(rows_shape), (oshape, rows_shape, dn)
+        pos = jnp.asarray(np.arange(operand.size, dtype=np.int32).reshape(shape))
+        pool = operand.reshape(-1)
+        reps = [list(range(-1, shape[sim[c]] + 1)) for c in range(d)]
+        table = {}
+        for combo in itertools.product(*reps):
+            ci = jnp.asarray(np.broadcast_to(np.array(combo, dtype=eqn.invars[1].aval.dtype), idx.shape))
+            with jax.ensure_compile_time_eval():
+                table[combo] = np.asarray(eqn.primitive.bind(pos, ci, **eqn.params))
+        out = obj(oshape)
+        for o in np.ndindex(*oshape):
+            row = tuple(o[i] for i in batch_out_dims)
+            comps = [lower(idx[row + (c,)]) for c in range(d)]
+            result = None
+            for combo in reversed(list(itertools.product(*reps))):
+                conds = []
+                skip = False
+                for c, v in enumerate(combo):
+                    e = comps[c]
+                    n = shape[sim[c]]
+                    if not is_sym(e):
+                        rep = -1 if e <= -1 else (n if e >= n else int(e))
+                        if rep != v:
+                            skip = True
+                            break
+                        continue
+                    conds.append(e <= -1 if v == -1 else (e >= n if v == n else e == v))
+                if skip:
+                    continue
+                p = int(table[combo][o])
+                val = pool[p] if 0 <= p < operand.size else _fill_value(kk)
+                if result is None or not conds:
+                    result = val
+                else:
+                    result = self.ops.ite(z3.And(*conds) if len(conds) > 1 else conds[0], val, result, kk)
+            out[o] = result
+        return [out]
 
     def p_scatter(self, eqn, ins):
         dn = eqn.params["dimension_numbers"]
